@@ -19,7 +19,7 @@ pub fn violation_key_of(o: &Outcome, job: &DJob) -> Option<(Value, String)> {
             "panic" => {
                 let s = &v["site"];
                 Some((
-                    json!({"class":"panic","file":s["file"],"function":s["function"],"msg":s["msg"]}),
+                    json!({"class":"panic","file":s["file"],"function":s["function"],"msg":s["msg"],"code":s["code"]}),
                     format!("{} (line {})", v["msg"].as_str().unwrap_or(""), v["line"]),
                 ))
             }
